@@ -117,6 +117,11 @@ def idxLit (i : Nat) : GTok := { s := toString i ++ "usize", p := .num }
 def genAttr (inner : List String) : GToks :=
   ("#" : GTok) :: ("[" : GTok) :: (inner.map (fun s => ({ s, p := .attr } : GTok)) ++ [("]" : GTok)])
 
+/-- the lints the generated impls switch off: they name the user's fields, variants and parameters with the user's spans
+(F39) -/
+def allowUserLints : GToks :=
+  genAttr ["allow", "(", "deprecated", ",", "non_camel_case_types", ",", "non_snake_case", ",", "non_upper_case_globals", ")"]
+
 def isIdentStart (c : Char) : Bool := c.isAlpha || c == '_'
 
 /-- Is this model token a word-like token (identifier, keyword, literal) as
